@@ -726,14 +726,15 @@ func c21Parts(c *vx.Ctx) []c21Part {
 			[]string{"new", "newb", "max:1", "max:2", "max:3", "omax:3", "onew"}, vx.Pick(c, 4, 5)},
 		// peer-created streams against the conn's advertised limit
 		{"remote-kinds", cfgs([]int64{0, 1, 2}, []int64{1}), kinds, vx.Pick(c, 2, 3)},
-		{"remote-1", cfgs([]int64{1}, []int64{1}), remote, vx.Pick(c, 6, 7)},
-		{"remote-0-2-3", cfgs([]int64{0, 2, 3}, []int64{1}), remote, vx.Pick(c, 4, 6)},
 		// the two stream types do not share a limit
 		{"cross-type", cfgs([]int64{1}, []int64{1}),
 			[]string{"pf#0", "ops#0", "ops#1", "acc", "close:0", "close:1", "ps@0", "ps@-1", "omax:3", "onew", "new"}, vx.Pick(c, 4, 5)},
 		// finishing local streams must not extend the peer's limit
 		{"mixed", cfgs([]int64{1}, []int64{1}),
 			[]string{"new", "lclose:0", "lpf:0", "ack", "pf#0", "acc", "close:0", "ps@0", "ps@-1", "max:1"}, vx.Pick(c, 5, 6)},
+		// deeper histories of peer-created streams
+		{"remote-0-2-3", cfgs([]int64{0, 2, 3}, []int64{1}), remote, vx.Pick(c, 4, 6)},
+		{"remote-1", cfgs([]int64{1}, []int64{1}), remote, vx.Pick(c, 6, 7)},
 	}
 }
 
